@@ -26,6 +26,7 @@ type SpecEnv struct {
 	li   *loopInfo
 	pkg  *types.Package
 	at   *ssa.BasicBlock // program point for resolving Go variable names (loop header)
+	posHint token.Pos    // where Go type expressions written in the contract are evaluated
 }
 
 type specErr struct{ msg string }
@@ -85,6 +86,20 @@ func (env *SpecEnv) sortOfName(n string) (*Sort, types.Type) {
 }
 
 func (env *SpecEnv) lookupType(name string) types.Type {
+	// a Go type expression (written as a string literal in the contract), evaluated in the
+	// scope of the function under verification
+	if strings.ContainsAny(name, "[]{} ") || strings.HasPrefix(name, "map") {
+		pos := env.posHint
+		if !pos.IsValid() && env.x.root != nil {
+			pos = env.x.root.Pos()
+		}
+		if env.pkg != nil {
+			if tv, err := types.Eval(env.x.fset, env.pkg, pos, name); err == nil && tv.Type != nil {
+				return tv.Type
+			}
+		}
+		return nil
+	}
 	ptr := false
 	if strings.HasPrefix(name, "*") {
 		ptr = true
@@ -1000,6 +1015,8 @@ func (env *SpecEnv) call(e *Expr) *Value {
 
 func exprTypeName(e *Expr) string {
 	switch e.Op {
+	case "str":
+		return e.Name
 	case "ident":
 		return e.Name
 	case "field":
